@@ -19,51 +19,52 @@ import (
 )
 
 type LoopDir struct {
-	Invariants []string
-	Decreases  string
-	Split      bool     // step obligations per path through the body instead of over the merged state
-	Lemmas     []string // lemma instances made available at the start of every iteration
-	Unroll     int
-	Bounded    bool // unroll bound not implied by code: bounded stand-in
+	Invariants  []string
+	Decreases   string
+	Split       bool     // step obligations per path through the body instead of over the merged state
+	Lemmas      []string // lemma instances made available at the start of every iteration
+	Fallthrough []string // clauses that hold whenever the end of the body is reached by falling through
+	Unroll      int
+	Bounded     bool // unroll bound not implied by code: bounded stand-in
 }
 
 // CallSiteDir: `//@ callsite <callee text>: <expr>`.
 type CallSiteDir struct {
 	Callee string
 	Expr   string
-	Ord    int // site#N: only the N-th statement (source order, 1-based) with this text; 0 = all
+	Ord    int  // site#N: only the N-th statement (source order, 1-based) with this text; 0 = all
 	Lemma  bool // site-lemma: Expr is `[cond ==>] lemma_X(args)`, instantiated instead of asserted
 	After  bool // site-lemma-after: after the statement has been executed
 }
 
 type Directives struct {
-	Props   []string
-	Mode    *Mode
-	Inline  map[string]bool
-	Loops   map[int]*LoopDir
-	Trusted bool // contract assumed, body not verified
-	Opaque  bool // spec function: never inline, use UF + axiom
-	Split   bool // one ensures obligation per return site
-	NoPanic bool // skip panic-freedom obligations (must be justified)
-	Reveal  map[string]bool
-	Abstract map[string]bool // spec functions treated as uninterpreted (no definition) in this VC
-	Target  string // explicit target override: "pkgpath.Func" for external contracts
-	Timeout int
-	GuardSliceStores bool // ownership guard: every slice header this function stores into memory is fresh, empty, or an in-place extension of what was there
-	GuardErrors bool // every non-nil error obtained from a callee leads to a non-nil returned error
-	CyclicLemma bool // lemma on a cycle of lemma uses (uses inside the cycle give no facts)
-	Decreases string // lemma: termination measure for self-recursive (inductive) use
-	MonotoneFalse map[string]bool // boolean locals that may only be lowered
-	MonotoneMap   map[string]bool // boolean-valued map locals whose true entries stay true
-	InsertOnlyMap map[string]bool // map expressions (source text) into which only absent keys are stored
-	FrameLocal    []string        // array locals (and slices of them) that never escape: dynamic calls cannot touch them
-	Sites     []CallSiteDir // assertions checked immediately before a statement with the given source text
-	CallSites []CallSiteDir // assertions checked in the caller's scope immediately before a named call
-	PureFuncValues bool // calls through func-typed variables are uninterpreted pure functions in this VC
-	SpecFrame bool // emit pairwise frame facts for spec applications over slices (window-only dependence)
-	Uninterp bool // spec function: always an uninterpreted function (its Go body is only used when replaying)
-	Unfold  int // spec functions: recursion is inlined up to this depth (then uninterpreted)
-	Raw     []string
+	Props            []string
+	Mode             *Mode
+	Inline           map[string]bool
+	Loops            map[int]*LoopDir
+	Trusted          bool // contract assumed, body not verified
+	Opaque           bool // spec function: never inline, use UF + axiom
+	Split            bool // one ensures obligation per return site
+	NoPanic          bool // skip panic-freedom obligations (must be justified)
+	Reveal           map[string]bool
+	Abstract         map[string]bool // spec functions treated as uninterpreted (no definition) in this VC
+	Target           string          // explicit target override: "pkgpath.Func" for external contracts
+	Timeout          int
+	GuardSliceStores bool            // ownership guard: every slice header this function stores into memory is fresh, empty, or an in-place extension of what was there
+	GuardErrors      bool            // every non-nil error obtained from a callee leads to a non-nil returned error
+	CyclicLemma      bool            // lemma on a cycle of lemma uses (uses inside the cycle give no facts)
+	Decreases        string          // lemma: termination measure for self-recursive (inductive) use
+	MonotoneFalse    map[string]bool // boolean locals that may only be lowered
+	MonotoneMap      map[string]bool // boolean-valued map locals whose true entries stay true
+	InsertOnlyMap    map[string]bool // map expressions (source text) into which only absent keys are stored
+	FrameLocal       []string        // array locals (and slices of them) that never escape: dynamic calls cannot touch them
+	Sites            []CallSiteDir   // assertions checked immediately before a statement with the given source text
+	CallSites        []CallSiteDir   // assertions checked in the caller's scope immediately before a named call
+	PureFuncValues   bool            // calls through func-typed variables are uninterpreted pure functions in this VC
+	SpecFrame        bool            // emit pairwise frame facts for spec applications over slices (window-only dependence)
+	Uninterp         bool            // spec function: always an uninterpreted function (its Go body is only used when replaying)
+	Unfold           int             // spec functions: recursion is inlined up to this depth (then uninterpreted)
+	Raw              []string
 }
 
 type FuncInfo struct {
@@ -79,16 +80,16 @@ type FuncInfo struct {
 }
 
 type Prog struct {
-	fset    *token.FileSet
-	pkgs    map[string]*packages.Package // by path
-	roots   []*packages.Package
-	funcs   map[*types.Func]*FuncInfo
-	byName  map[string]*FuncInfo
-	extra   map[*packages.Package]*types.Info
-	fileOf  map[*ast.File]*packages.Package
-	repoDir string
-	errors  []string
-	pure    map[string]bool // qualified names assumed pure (result-only havoc)
+	fset         *token.FileSet
+	pkgs         map[string]*packages.Package // by path
+	roots        []*packages.Package
+	funcs        map[*types.Func]*FuncInfo
+	byName       map[string]*FuncInfo
+	extra        map[*packages.Package]*types.Info
+	fileOf       map[*ast.File]*packages.Package
+	repoDir      string
+	errors       []string
+	pure         map[string]bool // qualified names assumed pure (result-only havoc)
 	inlineAlways map[string]bool
 }
 
@@ -253,6 +254,8 @@ func parseDirectives(cg *ast.CommentGroup) *Directives {
 				ld.Decreases = rest
 			case "lemma":
 				ld.Lemmas = append(ld.Lemmas, rest)
+			case "fallthrough":
+				ld.Fallthrough = append(ld.Fallthrough, rest)
 			case "split":
 				ld.Split = true
 			case "unroll":
